@@ -32,6 +32,7 @@ func runC04(c *an.Ctx) string {
 	r171Vocabulary(c)     // shared with C17 (rule id R17.1): the generated validator names the format the design declared
 	r172ValidateFormat(c) // R04.10: runtime format validators (rule ids R17.2/R17.3)
 	aliasFlattening(c, "R04.12")
+	requiredPropagationRule(c, "R04.14", "expr")
 	errAccumulatorRule(c, "R04.13", "http/codegen/templates/partial/request_elements.go.tpl", "http/codegen/templates/request_decoder.go.tpl", "http/codegen/templates/response_decoder.go.tpl", "http/codegen/templates/partial/single_response.go.tpl")
 	r028RefsAndBases(c, "R04.11") // shared with C02/R02.8: a Reference must not drag the referenced type's validations in
 	r181MergeErrors(c)            // shared with C18 (rule id R18.1): merged validation errors stay 400-class (Fault only if both are)
